@@ -75,6 +75,10 @@ func linkTailScope() scope { // one paragraph of <= 2 atoms: link / image destin
 	return scope{1, 1, 1, 1, 2, 1, 2, "TailAtoms", "SpOnly", "NoLeaves", "{0}", "TinyQuotes", "TinyLists", "TinyAtx",
 		"{TRUE}", "ParaWheel", "TailWheel", "{0}", mInvariants}
 }
+func codeLineScope() scope { // one code block (fenced with either character, or indented) whose lines look like closing fences; top level, in a quote, in an item
+	return scope{1, 1, 1, 1, 1, 2, 0, "WordOnly", "SpOnly", "CodeLeaves", "{0, 2, 3}", "CoreQuotes", "TinyLists", "TinyAtx",
+		"{TRUE}", "LeafWheel", "WordWheel", "{0}", mInvariants}
+}
 func lineStartScope() scope { // one paragraph: a word and tokens that look like block starts, soft breaks as written
 	return scope{1, 1, 1, 1, 2, 1, 2, "LineStartAtoms", "LineJoins", "NoLeaves", "{0}", "TinyQuotes", "TinyLists", "TinyAtx",
 		"{TRUE}", "ParaWheel", "LineAtomWheel", "{0}", mInvariants}
@@ -267,7 +271,7 @@ func run(c *lib.Ctx) error {
 		name string
 		sc   scope
 	}
-	exhs := []named{{"tiny", tinyScope()}, {"line-starts", lineStartScope()}, {"blank-start", blankStartScope()}, {"link-tails", linkTailScope()}, {"entities", entityScope()}, {"hard-breaks", breakScope()}, {"loose-lists", looseScope(c.Pick(3, 4))}}
+	exhs := []named{{"tiny", tinyScope()}, {"line-starts", lineStartScope()}, {"blank-start", blankStartScope()}, {"link-tails", linkTailScope()}, {"code-lines", codeLineScope()}, {"entities", entityScope()}, {"hard-breaks", breakScope()}, {"loose-lists", looseScope(c.Pick(3, 4))}}
 	if c.Thorough() {
 		exhs = append(exhs, named{"core-flat", coreFlatScope()})
 	}
